@@ -14,7 +14,7 @@ use crate::refprog::Env;
 use crate::render;
 use crate::rng::{fnv, Rng};
 use crate::verdict::Ctx;
-use pyxis::grammar::{ItemDefinitionInner, ItemPath, Module, Type, TypeField};
+use pyxis::grammar::*;
 use rayon::prelude::*;
 use serde_json::{json, Value};
 use std::collections::BTreeMap;
@@ -543,6 +543,64 @@ pub fn exhaustive_small(ptrw: usize, stride: usize, offset: usize) -> Vec<(Vec<(
     out
 }
 
+/// Types whose fields want more alignment than a pointer, declared without (or with too small
+/// an) `align`, and embedded at offsets that are pointer-aligned only. A realisable layout does
+/// not exist for most of them; whatever is accepted is judged like any other accepted build.
+pub fn under_aligned_cases(first: usize) -> Vec<(String, Vec<(ItemPath, Module)>, usize)> {
+    let mut out = vec![];
+    for ptrw in [4usize, 8] {
+        let wides: &[(&str, usize)] = if ptrw == 8 { &[("u128", 16), ("i128", 16)] } else { &[("u64", 8), ("i64", 8), ("f64", 8), ("u128", 16)] };
+        let word = if ptrw == 8 { "u64" } else { "u32" };
+        for (wide, wsz) in wides {
+            for inner_shape in 0..4usize {
+                for inner_align in [None, Some(ptrw), Some(*wsz)] {
+                    for outer_shape in 0..5usize {
+                        for outer_align in [None, Some(*wsz)] {
+                            let id = format!("k{}_", first + out.len());
+                            let mut m = Module::new();
+                            let mut defs = vec![];
+                            // Inner: two regions, one of them wide
+                            let inner_fields = match inner_shape {
+                                0 => vec![crate::refmodel::field("a", Type::ident(wide), None, true), crate::refmodel::field("b", Type::ident(wide), None, true)],
+                                1 => vec![crate::refmodel::field("a", Type::ident(wide), None, true), crate::refmodel::field("p", Type::ident("u8").const_pointer().array(wsz / ptrw), None, true)],
+                                2 => {
+                                    defs.push(ItemDefinition::new((Visibility::Public, "W"), EnumDefinition::new(Type::ident(if *wide == "f64" { "u64" } else { wide }), [EnumStatement::field("A")], [Attribute::copyable()])));
+                                    vec![crate::refmodel::field("e", Type::ident("W"), None, true), crate::refmodel::field("f", Type::ident("W"), Some(*wsz), true)]
+                                }
+                                _ => vec![crate::refmodel::field("arr", Type::ident(wide).array(2), None, true), crate::refmodel::field("_", Type::Unknown(*wsz), None, false)],
+                            };
+                            let mut inner = TypeDefinition::new(inner_fields);
+                            if let Some(a) = inner_align {
+                                inner = inner.with_attributes([Attribute::align(a)]);
+                            }
+                            defs.push(ItemDefinition::new((Visibility::Public, "Inner"), inner));
+                            let outer_fields = match outer_shape {
+                                0 => vec![crate::refmodel::field("x", Type::ident(word), None, true), crate::refmodel::field("inner", Type::ident("Inner"), None, true), crate::refmodel::field("y", Type::ident(word), None, true)],
+                                1 => vec![crate::refmodel::field("x", Type::ident(word), None, true), crate::refmodel::field("inner", Type::ident("Inner"), Some(ptrw), true), crate::refmodel::field("y", Type::ident(word), Some(ptrw + 2 * wsz), true)],
+                                2 => vec![crate::refmodel::field("x", Type::ident(word), None, true), crate::refmodel::field("inners", Type::ident("Inner").array(2), None, true), crate::refmodel::field("y", Type::ident(word), None, true)],
+                                3 => {
+                                    let mut b = crate::refmodel::field("base", Type::ident("Inner"), None, true);
+                                    b.attributes.0.push(Attribute::base());
+                                    vec![crate::refmodel::field("x", Type::ident(word), None, true), b, crate::refmodel::field("y", Type::ident(word), None, true)]
+                                }
+                                _ => vec![crate::refmodel::field("x", Type::ident(word).array(3), None, true), crate::refmodel::field("inner", Type::ident("Inner"), Some(3 * ptrw), true), crate::refmodel::field("y", Type::ident(word).array(1), None, true)],
+                            };
+                            let mut outer = TypeDefinition::new(outer_fields);
+                            if let Some(a) = outer_align {
+                                outer = outer.with_attributes([Attribute::align(a)]);
+                            }
+                            defs.push(ItemDefinition::new((Visibility::Public, "Outer"), outer));
+                            m = m.with_definitions(defs);
+                            out.push((id.clone(), vec![(ItemPath::from(format!("{id}ua").as_str()), m)], ptrw));
+                        }
+                    }
+                }
+            }
+        }
+    }
+    out
+}
+
 pub fn run(ctx: &mut Ctx, which: &str) {
     let quick = ctx.tier == crate::verdict::Tier::Quick;
     ctx.rule = if which == "C01" {
@@ -592,6 +650,9 @@ pub fn run(ctx: &mut Ctx, which: &str) {
     for (id, mods, ptrw, _) in hostile {
         inputs.push((id, mods, ptrw));
     }
+    let ua = under_aligned_cases(inputs.len());
+    ctx.count("under_aligned_embedding_cases", ua.len() as u64);
+    inputs.extend(ua);
     let last_hostile = inputs.len();
     // exhaustive small space
     let stride = if quick { 23 } else { 1 };
